@@ -219,7 +219,7 @@ func c11(r *core.Run) {
 				if strict != wantStrict {
 					o.Fail(p.InstrPos(c), "%s passes strict=%s, its name requires %s", core.FuncName(m), strict, wantStrict)
 				}
-				if !core.DependsOn(args[0], core.IsFreeVar("v")) && !core.DependsOn(args[0], core.IsParam("v")) {
+				if !core.DependsOn(args[0], core.ParamOrCaptured(m, 2)) {
 					o.Fail(p.InstrPos(c), "%s does not scan into its destination argument", core.FuncName(m))
 				}
 				if _, ok := core.Strip(args[1]).(*ssa.Parameter); !ok {
@@ -284,7 +284,7 @@ func c11(r *core.Run) {
 		}
 		for _, c := range tc {
 			a := core.Args(c)
-			if !core.IsFreeVar("fn")(a[len(a)-1]) {
+			if !core.CapturedParam(f, 2)(a[len(a)-1]) {
 				o.Fail(p.InstrPos(c), "the caller's transaction body is not passed through")
 			}
 			for _, ret := range core.Returns(body) {
@@ -306,7 +306,7 @@ func c11(r *core.Run) {
 			for _, c := range core.Calls(t, core.CallTo("lib/store/sqlx.transactOnConn")) {
 				o.Site(1)
 				a := core.Args(c)
-				if !core.IsParam("fn")(a[len(a)-1]) {
+				if !core.ParamAt(t, 3)(a[len(a)-1]) {
 					o.Fail(p.InstrPos(c), "transact does not pass the body through")
 				}
 			}
@@ -365,8 +365,8 @@ func c11(r *core.Run) {
 		}
 		r.Fn(core.FuncName(f))
 		isFields := func(v ssa.Value) bool { return core.IsResult(v, 0, core.CallTo("lib/store/sqlx.unwrapFields")) }
-		fewer := core.Cmp(token.LSS, core.IsLenOf(core.IsParam("columns")), core.IsLenOf(isFields))
-		strict := core.BoolVal(core.IsParam("strict"))
+		fewer := core.Cmp(token.LSS, core.IsLenOf(core.ParamAt(f, 1)), core.IsLenOf(isFields))
+		strict := core.BoolVal(core.ParamAt(f, 2))
 		retNM := func(in ssa.Instruction) bool {
 			ret, ok := in.(*ssa.Return)
 			return ok && core.IsGlobal(sqlx, "ErrNotMatchDestination")(core.Result(ret, 1))
@@ -418,7 +418,7 @@ func c11(r *core.Run) {
 			o.Fail(p.Pos(f.Pos()), "tagged fields are not looked up in the tag map")
 		}
 		for _, l := range look {
-			if !core.DependsOn(l.(*ssa.Lookup).Index, core.IsParam("columns")) {
+			if !core.DependsOn(l.(*ssa.Lookup).Index, core.ParamAt(f, 1)) {
 				o.Fail(p.InstrPos(l), "tag map lookup key does not come from the column names")
 			}
 		}
